@@ -144,6 +144,8 @@ class Gen:
     def mk_sete(self):
         ft_t, kb_t, kb_s, _ = self.roles()
         cands = [k for k in self.leaves() if k not in ft_t and k not in kb_t and k not in kb_s]
+        if not cands:
+            return None
         for attempt in range(4):
             t = self.draw(st.sampled_from(cands))
             ast = self.term_for(t)
@@ -168,6 +170,8 @@ class Gen:
         deep = [k for k in hot if k not in m.defs and len(m.trigger_sets(k)[0]) >= 2]
         pick = self.draw(st.integers(0, 7))
         pool = deep if deep and pick >= 4 else (hot if hot and pick >= 1 else cands + extra)
+        if not pool:
+            pool = list(self.leaves())
         k = self.draw(st.sampled_from(pool))
         if k == W.IDX_LEAF:
             v = self.draw(st.integers(0, 2))
@@ -183,6 +187,8 @@ class Gen:
         ft_t, kb_t, kb_s, _ = self.roles()
         m = self.model
         cands = [k for k in self.leaves() if k not in ft_t and k not in kb_t and k not in kb_s]
+        if not cands:
+            return None
         defined = [k for k in cands if k in m.defs]
         pool = defined if defined and self.draw(st.booleans()) else cands
         t = self.draw(st.sampled_from(pool))
